@@ -1,0 +1,210 @@
+//! Verification hooks (compiled only with `--cfg boa_verif`): thread-local switches that force the
+//! conservative choice of compiler/VM shortcuts, observation of VM depths, inline-cache events and a
+//! typed dump of compiled code blocks.  Nothing here is reachable with the guard off.
+#![allow(missing_docs, clippy::must_use_candidate, clippy::missing_panics_doc)]
+
+use crate::{
+    Context, JsString,
+    vm::{
+        CodeBlock, Constant,
+        opcode::{InstructionIterator, Opcode},
+    },
+};
+use std::cell::{Cell, RefCell};
+use std::fmt::Write;
+
+pub const NO_CONST_CACHE: u32 = 1;
+pub const NO_LOOP_HOIST: u32 = 2;
+pub const NO_FUSED_BRANCH: u32 = 4;
+pub const NO_IC: u32 = 8;
+pub const DEPTH_LOG: u32 = 16;
+pub const IC_LOG: u32 = 32;
+
+thread_local!(static SWITCHES: Cell<u32> = const { Cell::new(0) });
+thread_local!(static IC_COUNTS: Cell<[u64; 5]> = const { Cell::new([0; 5]) });
+thread_local!(static IC_EVENTS: RefCell<Vec<(String, char)>> = const { RefCell::new(Vec::new()) });
+thread_local!(static DEPTHS: RefCell<Vec<DepthRecord>> = const { RefCell::new(Vec::new()) });
+
+/// One executed instruction: state *before* it runs.
+#[derive(Debug, Clone, Copy)]
+pub struct DepthRecord {
+    pub block: u64,
+    pub frames: u32,
+    pub pc: u32,
+    pub opcode: u8,
+    /// value-stack length minus (rp + register_count): values pushed above the register file
+    pub stack_extra: i64,
+    /// environments.len() - env_fp
+    pub env_depth: i64,
+    pub binding_stack: u32,
+}
+
+pub fn set_switches(bits: u32) {
+    SWITCHES.with(|c| c.set(bits));
+}
+
+pub fn switches() -> u32 {
+    SWITCHES.with(Cell::get)
+}
+
+#[inline]
+pub fn switch(bit: u32) -> bool {
+    SWITCHES.with(Cell::get) & bit != 0
+}
+
+/// `(frames including the dummy frame, value-stack length, pending exception?, host_call_depth)`
+pub fn vm_depths(context: &Context) -> (usize, usize, bool, usize) {
+    (
+        context.vm.frames.len(),
+        context.vm.stack.verif_len(),
+        context.vm.pending_exception.is_some(),
+        context.vm.host_call_depth,
+    )
+}
+
+/// Inline-cache events: 'h' hit, 'x' miss, 's' entry stored, 'm' store refused (megamorphic),
+/// 'M' lookup on a megamorphic site.
+pub(crate) fn ic_event(name: &JsString, kind: char) {
+    IC_COUNTS.with(|c| {
+        let mut v = c.get();
+        let i = match kind {
+            'h' => 0,
+            'x' => 1,
+            's' => 2,
+            'm' => 3,
+            _ => 4,
+        };
+        v[i] += 1;
+        c.set(v);
+    });
+    if switch(IC_LOG) {
+        IC_EVENTS.with(|e| e.borrow_mut().push((name.to_std_string_escaped(), kind)));
+    }
+}
+
+/// `[hits, misses, stores, refused stores, megamorphic lookups]` since the last reset.
+pub fn ic_counts(reset: bool) -> [u64; 5] {
+    IC_COUNTS.with(|c| {
+        let v = c.get();
+        if reset {
+            c.set([0; 5]);
+        }
+        v
+    })
+}
+
+pub fn take_ic_events() -> Vec<(String, char)> {
+    IC_EVENTS.with(|e| std::mem::take(&mut *e.borrow_mut()))
+}
+
+pub(crate) fn log_depths(context: &Context, opcode: Opcode) {
+    if !switch(DEPTH_LOG) {
+        return;
+    }
+    let frame = context.vm.frame();
+    let rec = DepthRecord {
+        block: frame.code_block.debug_id,
+        frames: context.vm.frames.len() as u32,
+        pc: frame.pc,
+        opcode: opcode as u8,
+        stack_extra: context.vm.stack.verif_len() as i64
+            - i64::from(frame.rp)
+            - i64::from(frame.code_block.register_count),
+        env_depth: frame.environments.len() as i64 - i64::from(frame.env_fp),
+        binding_stack: frame.binding_stack.len() as u32,
+    };
+    DEPTHS.with(|d| {
+        let mut d = d.borrow_mut();
+        if d.len() < 4_000_000 {
+            d.push(rec);
+        }
+    });
+}
+
+pub fn take_depth_log() -> Vec<DepthRecord> {
+    DEPTHS.with(|d| std::mem::take(&mut *d.borrow_mut()))
+}
+
+pub fn opcode_name(byte: u8) -> &'static str {
+    Opcode::decode(byte).as_str()
+}
+
+impl CodeBlock {
+    /// Typed dump of this block and, recursively, of every function constant.
+    ///
+    /// ```text
+    /// block <id> regs=<n> params=<n> len=<n> flags=<bits> bytes=<n> consts=<n> bindings=<n> ics=<n> handlers=<n> name=<escaped>
+    /// const <i> S|B|C|F [<nested block id>]
+    /// binding <i> <scope> <binding index> <escaped name>
+    /// handler <i> <start> <end> <environment_count>
+    /// ins <pc> <next pc> <opcode byte> <Debug of the decoded instruction>
+    /// end <id>
+    /// ```
+    pub fn verif_dump(&self) -> String {
+        let mut out = String::new();
+        self.verif_dump_into(&mut out);
+        out
+    }
+
+    fn verif_dump_into(&self, out: &mut String) {
+        let _ = writeln!(
+            out,
+            "block {} regs={} params={} len={} flags={} bytes={} consts={} bindings={} ics={} handlers={} name={}",
+            self.debug_id,
+            self.register_count,
+            self.parameter_length,
+            self.length,
+            self.flags.get().bits(),
+            self.bytecode.bytes.len(),
+            self.constants.len(),
+            self.bindings.len(),
+            self.ic.len(),
+            self.handlers.len(),
+            self.name().to_std_string_escaped()
+        );
+        for (i, c) in self.constants.iter().enumerate() {
+            match c {
+                Constant::String(_) => {
+                    let _ = writeln!(out, "const {i} S");
+                }
+                Constant::BigInt(_) => {
+                    let _ = writeln!(out, "const {i} B");
+                }
+                Constant::Scope(_) => {
+                    let _ = writeln!(out, "const {i} C");
+                }
+                Constant::Function(f) => {
+                    let _ = writeln!(out, "const {i} F {}", f.debug_id);
+                }
+            }
+        }
+        for (i, b) in self.bindings.iter().enumerate() {
+            let _ = writeln!(
+                out,
+                "binding {i} {:?} {} {}",
+                b.scope(),
+                b.binding_index(),
+                b.name().to_std_string_escaped()
+            );
+        }
+        for (i, h) in self.handlers.iter().enumerate() {
+            let _ = writeln!(
+                out,
+                "handler {i} {} {} {}",
+                h.start.as_u32(),
+                h.end.as_u32(),
+                h.environment_count
+            );
+        }
+        let mut it = InstructionIterator::new(&self.bytecode);
+        while let Some((pc, opcode, instruction)) = it.next() {
+            let _ = writeln!(out, "ins {pc} {} {} {:?}", it.pc(), opcode as u8, instruction);
+        }
+        let _ = writeln!(out, "end {}", self.debug_id);
+        for c in &self.constants {
+            if let Constant::Function(f) = c {
+                f.verif_dump_into(out);
+            }
+        }
+    }
+}
